@@ -158,6 +158,7 @@ TResults ==
   /\ Chk("stored_results_unchanged_by_reading_and_summarising", Ev.reread_ok)
   /\ Chk("keys_distinct_across_chains_and_calls",
          Cardinality(SeqToSet(Ev.allkeys)) = Len(Ev.allkeys))
+  /\ Chk("no_call_key_is_derived_from_another_calls_key", Ev.keys_underived)
   /\ Chk("design_invariants",
          LifecycleOK /\ EndWarmupAtMostOnce /\ StoredOK /\ QuantsOK /\ OrderRespected /\ TuneHistoryOK)
   /\ UNCHANGED <<mvars, evars, params, usedKeys>> /\ Step
